@@ -337,7 +337,9 @@ fn alphabet(thorough: bool) -> Vec<Step> {
         v.push(Step { op: Op::Flush, ans });
         v.push(Step { op: Op::Shutdown, ans });
     }
-    let caps: &[(usize, usize)] = if thorough { &[(0, 0), (1, 0), (2, 0), (8, 0), (0, 1), (1, 1), (2, 1), (8, 1)] } else { &[(0, 0), (1, 0), (2, 1), (8, 0), (8, 1)] };
+    // (capacity, pre-filled bytes); pre-filled >= 100 means: the whole buffer is already initialised (a caller
+    // re-using a zeroed buffer, `ReadBuf::new`), pre-filled - 100 bytes of it filled
+    let caps: &[(usize, usize)] = if thorough { &[(0, 0), (1, 0), (2, 0), (8, 0), (0, 1), (1, 1), (2, 1), (8, 1), (8, 101), (2, 100), (1, 101)] } else { &[(0, 0), (1, 0), (2, 1), (8, 0), (8, 1), (8, 101)] };
     for &(cap, pre) in caps {
         for ans in [Ans::Read(usize::MAX), Ans::Read(1), Ans::Pending, Ans::ReadEof, err] {
             v.push(Step { op: Op::Read(cap, pre), ans });
@@ -396,8 +398,11 @@ impl<T: tokio::io::AsyncRead + tokio::io::AsyncWrite + Unpin> Subject for TokioS
         map_u(noop_cx_run(|cx| Pin::new(&mut self.0).poll_shutdown(cx)))
     }
     fn read(&mut self, cap: usize, prefilled: usize) -> Seen {
+        let initialised = prefilled >= 100;
+        let prefilled = prefilled % 100;
         let mut storage = storage(cap + prefilled);
-        let mut rb = tokio::io::ReadBuf::uninit(&mut storage);
+        let mut bytes = vec![0xA5u8; cap + prefilled];
+        let mut rb = if initialised { tokio::io::ReadBuf::new(&mut bytes) } else { tokio::io::ReadBuf::uninit(&mut storage) };
         let pre: Vec<u8> = (0..prefilled).map(|i| 0xC0 + i as u8).collect();
         rb.put_slice(&pre);
         let p = noop_cx_run(|cx| Pin::new(&mut self.0).poll_read(cx, &mut rb));
@@ -439,8 +444,11 @@ impl<T: hyper::rt::Read + hyper::rt::Write + Unpin> Subject for HyperSubject<T> 
         map_u(noop_cx_run(|cx| Pin::new(&mut self.0).poll_shutdown(cx)))
     }
     fn read(&mut self, cap: usize, prefilled: usize) -> Seen {
+        let initialised = prefilled >= 100;
+        let prefilled = prefilled % 100;
         let mut storage = storage(cap + prefilled);
-        let mut rb = hyper::rt::ReadBuf::uninit(&mut storage);
+        let mut bytes = vec![0xA5u8; cap + prefilled];
+        let mut rb = if initialised { hyper::rt::ReadBuf::new(&mut bytes) } else { hyper::rt::ReadBuf::uninit(&mut storage) };
         let pre: Vec<u8> = (0..prefilled).map(|i| 0xC0 + i as u8).collect();
         rb.unfilled().put_slice(&pre);
         let p = noop_cx_run(|cx| Pin::new(&mut self.0).poll_read(cx, rb.unfilled()));
@@ -558,13 +566,20 @@ fn run_sequence(ad: &AdapterDef, seq: &[Step], vectored_inner: bool) -> Result<u
             s.answers.push_back(st.ans);
             answers_before = 1;
         }
-        let seen = match st.op {
+        // an adapter that panics on a legal call is reported like any other corruption
+        let seen = match std::panic::catch_unwind(std::panic::AssertUnwindSafe(|| match st.op {
             Op::Write(n) => subj.write(&b"XYZ"[..n]),
             Op::WriteVectored => subj.write_vectored(b"U", b"VW"),
             Op::WriteVectoredB => subj.write_vectored(b"UV", b"W"),
             Op::Flush => subj.flush(),
             Op::Shutdown => subj.shutdown(),
             Op::Read(cap, pre) => subj.read(cap, pre),
+        })) {
+            Ok(s) => s,
+            Err(p) => Seen::Corrupt(format!(
+                "the adapter panicked: {}",
+                p.downcast_ref::<&str>().map(|s| s.to_string()).or_else(|| p.downcast_ref::<String>().cloned()).unwrap_or_default()
+            )),
         };
         let (calls, answer_used) = {
             let s = sh.lock().unwrap();
@@ -741,6 +756,9 @@ pub fn run_c18(args: &Args) -> i32 {
     }
     let mut run = Run::new("C18", args.tier, "model_checking");
     let thorough = args.tier.is_thorough();
+    if std::env::var("HDMC_SHOW_PANICS").is_err() {
+        std::panic::set_hook(Box::new(|_| {}));
+    }
     let ads = adapters();
     let mut evals = 0u64;
     let mut distinct = 0u64;
